@@ -809,6 +809,8 @@ structure JsonObs where
   isBase : Bool
   verdict : Verdict3
   load : Option LoadObs
+  /-- for a written file: the observation and sample IDs of the table it was written from -/
+  tableIds : Option (List String × List String) := none
   deriving Repr
 
 def strIds (ids : List J) : List String := ids.filterMap (fun v => match v with | .str s => some s | _ => none)
@@ -822,6 +824,16 @@ def loadMatches (j : J) (l : LoadObs) : Bool :=
   l.grid.length == l.obs.length && l.grid.all (fun r => r.length == l.samp.length) &&
   declaredGrid j oids.length sids.length == some l.grid
 
+/-- a written file that is valid (numeric element type) loads with exactly its table's IDs -/
+def tableIdsOk (tids : Option (List String × List String)) (validNumeric : Bool) (load : Option LoadObs) : Bool :=
+  match tids with
+  | none => true
+  | some (eo, es) =>
+    !validNumeric ||
+      (match load with
+       | some l => l.ok && l.obs == eo && l.samp == es
+       | none => false)
+
 open Codec in
 def holdsJson (j : J) (o : JsonObs) : Verdict :=
   allV [
@@ -831,7 +843,8 @@ def holdsJson (j : J) (o : JsonObs) : Verdict :=
       (!(o.verdict == .valid && numericElem j && idsAreStrings j && dataIsList j) ||
         (match o.load with
          | some l => loadMatches j l
-         | none => false)) ]
+         | none => false)),
+    chk "written_loads_table_ids" (tableIdsOk o.tableIds (o.verdict == .valid && numericElem j) o.load) ]
 
 /-! ## HDF5: the logical tree and `_validate_hdf5` (format version 2.1) -/
 
@@ -1373,6 +1386,10 @@ def handleJson (req : Json) : R Json := do
       let ms ← listF asMutation req "muts"
       pure (applyAll ms base == doc)
   -- a written base file must be the document `docOf` denotes for the table it was written from
+  let tableIds ←
+    match optFld req "written_from" with
+    | none => pure none
+    | some w => do pure (some ((← listF asStr w "obs"), (← listF asStr w "samp")))
   let writerAgree ←
     match optFld req "written_from" with
     | none => pure true
@@ -1389,7 +1406,7 @@ def handleJson (req : Json) : R Json := do
   let mv := validateJson dateOk doc
   let ml := reportLinesJson dateOk doc
   let mload := loadJson doc
-  let h := holdsJson doc { isBase, verdict, load }
+  let h := holdsJson doc { isBase, verdict, load, tableIds }
   let linesAgree := match nlines with
     | some n => mv == .crash || n == ml
     | none => true
@@ -1485,7 +1502,13 @@ def handleH5 (req : Json) : R Json := do
   let linesAgree := match nlines with
     | some n => mv == .crash || n == ml
     | none => true
-  let writerOk := !isBase || writerTreeB dateOk tree
+  let idsOk ←
+    match optFld req "written_from" with
+    | none => pure true
+    | some w => do
+      pure (strsOf tree ["observation", "ids"] == some (← listF asStr w "obs") &&
+            strsOf tree ["sample", "ids"] == some (← listF asStr w "samp"))
+  let writerOk := (!isBase || writerTreeB dateOk tree) && idsOk
   let agree := applyAgree && mv == verdict && linesAgree && writerOk
   let what := (if applyAgree then [] else ["apply"]) ++ (if mv == verdict then [] else ["verdict"]) ++
     (if linesAgree then [] else ["report_lines"]) ++ (if writerOk then [] else ["writer_invariants"])
